@@ -74,6 +74,16 @@ NestRec: !record
     c: !array {items: [long, string], dimensions: 2}
 NestVec: !vector
   items: !map {keys: string, values: [int, double]}
+Volumes: !record
+  fields:
+    axis: string
+    v1: float[z, y, x]
+    v2: float[y, x]
+    v3: float[t, z, y, x]
+    v4: int[x, y]
+  computedFields:
+    axisSum: dimensionIndex(v1, axis) + dimensionIndex(v2, axis) + dimensionIndex(v3, axis) + dimensionIndex(v4, axis)
+    extents: size(v1, axis) * size(v2, axis) + size(v3, axis)
 I1: Ei2<int, string>
 I2: Ei2<string, int>
 I3: Ei3<int, string, float>
@@ -97,6 +107,7 @@ QM: !protocol
     s10: NestRec
     s11: NestVec
     s12: Ei2<Nest, NestRec>
+    s13: Volumes
 """
 
 # unchanged aliases of named types, used in nested positions of protocol steps that did change between the versions: the
